@@ -1,3 +1,4 @@
+\* reference functions on the bounded input space (no transformer steps)
 CONSTANTS
   CpAlpha = {97, 38, 45, 44, 126, 32, 1, 127, 233, 8364, 65533, 128512}
   ByteAlpha = {38, 45, 65, 71, 103, 50, 44, 47, 97, 61, 128, 13}
@@ -5,8 +6,9 @@ CONSTANTS
   DecMax = 5
   TokMax = 4
   Stream = FALSE
-  Caps = {1}
-  Chunks = {1}
+  Caps = {1, 2, 3, 4, 8}
+  Chunks = {1, 2, 3, 99}
 INIT Init
-NEXT GenNext
-CHECK_DEADLOCK FALSE
+NEXT Next
+INVARIANTS TypeOK RoundTrip VerdictsDisjoint OneShotAgrees
+CHECK_DEADLOCK TRUE
